@@ -152,5 +152,18 @@ def cases(draw):
     return c
 
 
+# ------------------------------------------------------------------ coverage-guided histories (libFuzzer, fuzz/fuzz_field.cpp)
+from vlib import fuzzrun  # noqa: E402
+
+FUZZ_CORPUS = [bytes(range(64)), bytes([255, 0, 37, 200] * 40), bytes([0] * 90), bytes([7, 250, 33, 128, 64, 251] * 30)]
+run_fuzzfield = fuzzrun.make_runner("c18", "VERIF_FUZZFIELD", FUZZ_CORPUS, max_len=768, wisdom=True)
+
+
+def finalize(cov, agg, tier):
+    fuzzrun.finalize(cov, agg, "fuzzfield")
+
+
 def subs(tier):
-    return [Sub("history", cases(), run_case, quick=7500, thorough=40000)]
+    return [Sub("fuzzfield", st.just({}), run_fuzzfield, quick=1, thorough=1, needs=("fuzzfield",),
+                enum=lambda t: fuzzrun.campaigns(t, 3000, 300000), max_wall={"quick": 500, "thorough": 3000}),
+            Sub("history", cases(), run_case, quick=7500, thorough=40000)]
